@@ -177,6 +177,68 @@ ENSURES(V_SWAPPED(a, b) && V_SWAPPED(b, a))
 ;
 #endif
 
+/* C09/C11: the sort / reverse / search / find wrappers hand the raw-array functions EXACTLY the
+ * elements [0, size) -- not the capacity --, the vector's element size, and (sort, reverse) the
+ * spare slot at index capacity as scratch, which lies inside the allocation of capacity+1
+ * elements.  The raw-array functions are replaced by contracts whose preconditions say that (their
+ * own behaviour is C11: rawarray.* groups); the frame is the elements and the scratch slot. */
+#ifdef VF_G_wrappers
+cstl_compare_func_t * vf_wr_cmp; void * vf_wr_priv; cstl_swap_func_t * vf_wr_swap; int vf_wr_algo; const void * vf_wr_ex;
+size_t vf_wr_calls;
+#define WR_ARGS(arr, count, size) ((arr) == vf_xtor_vec->elem.base && (count) == vf_xtor_vec->count && (size) == vf_xtor_vec->elem.size)
+#define WR_TMP(t)       ((t) == (void *)((char *)vf_xtor_vec->elem.base + vf_xtor_vec->cap * VF_ESZ))
+void cstl_raw_array_sort(void * const arr, const size_t count, const size_t size, cstl_compare_func_t * const cmp, void * const priv,
+                         cstl_swap_func_t * const swap, void * const tmp, const cstl_sort_algorithm_t algo)
+REQUIRES(WR_ARGS(arr, count, size) && WR_TMP(tmp) && cmp == vf_wr_cmp && priv == vf_wr_priv && swap == vf_wr_swap && (int)algo == vf_wr_algo)
+ASSIGNS(vf_wr_calls; arr != NULL: __CPROVER_object_whole(arr))
+ENSURES(vf_wr_calls == OLD(vf_wr_calls) + 1)
+;
+void cstl_raw_array_reverse(void * const arr, const size_t count, const size_t size, cstl_swap_func_t * const swap, void * const tmp)
+REQUIRES(WR_ARGS(arr, count, size) && WR_TMP(tmp) && swap == vf_wr_swap)
+ASSIGNS(vf_wr_calls; arr != NULL: __CPROVER_object_whole(arr))
+ENSURES(vf_wr_calls == OLD(vf_wr_calls) + 1)
+;
+ssize_t cstl_raw_array_search(const void * const arr, const size_t count, const size_t size, const void * const ex,
+                              cstl_compare_func_t * const cmp, void * const priv)
+REQUIRES(WR_ARGS(arr, count, size) && ex == vf_wr_ex && cmp == vf_wr_cmp && priv == vf_wr_priv)
+ASSIGNS(vf_wr_calls)
+ENSURES(vf_wr_calls == OLD(vf_wr_calls) + 1 && RESULT >= -1 && (RESULT == -1 || (size_t)RESULT < count))
+;
+ssize_t cstl_raw_array_find(const void * const arr, const size_t count, const size_t size, const void * const ex,
+                            cstl_compare_func_t * const cmp, void * const priv)
+REQUIRES(WR_ARGS(arr, count, size) && ex == vf_wr_ex && cmp == vf_wr_cmp && priv == vf_wr_priv)
+ASSIGNS(vf_wr_calls)
+ENSURES(vf_wr_calls == OLD(vf_wr_calls) + 1 && RESULT >= -1 && (RESULT == -1 || (size_t)RESULT < count))
+;
+#define WR_PRE(v)       (V_PRE(v) && vf_xtor_vec == (v) && vf_wr_calls == 0)
+#define WR_KEPT(v)      (V_WF(v) && (v)->elem.base == OLD((v)->elem.base) && (v)->count == OLD((v)->count) && (v)->cap == OLD((v)->cap) && vf_wr_calls == 1)
+#ifdef VF_VEC_EMPTY
+#define WR_FRAME(v)     vf_wr_calls
+#else
+#define WR_FRAME(v)     vf_wr_calls, __CPROVER_object_whole((v)->elem.base)
+#endif
+void __cstl_vector_sort(struct cstl_vector * const v, cstl_compare_func_t * const cmp, void * const priv, cstl_swap_func_t * const swap, const cstl_sort_algorithm_t algo)
+REQUIRES(WR_PRE(v) && cmp == vf_wr_cmp && priv == vf_wr_priv && swap == vf_wr_swap && (int)algo == vf_wr_algo)
+ASSIGNS(WR_FRAME(v))
+ENSURES(WR_KEPT(v))
+;
+void __cstl_vector_reverse(struct cstl_vector * const v, cstl_swap_func_t * const swap)
+REQUIRES(WR_PRE(v) && swap == vf_wr_swap)
+ASSIGNS(WR_FRAME(v))
+ENSURES(WR_KEPT(v))
+;
+ssize_t cstl_vector_search(const struct cstl_vector * const v, const void * const e, cstl_compare_func_t * const cmp, void * const priv)
+REQUIRES(WR_PRE(v) && e == vf_wr_ex && cmp == vf_wr_cmp && priv == vf_wr_priv)
+ASSIGNS(vf_wr_calls)
+ENSURES(vf_wr_calls == 1 && RESULT >= -1 && (RESULT == -1 || (size_t)RESULT < v->count))
+;
+ssize_t cstl_vector_find(const struct cstl_vector * const v, const void * const e, cstl_compare_func_t * const cmp, void * const priv)
+REQUIRES(WR_PRE(v) && e == vf_wr_ex && cmp == vf_wr_cmp && priv == vf_wr_priv)
+ASSIGNS(vf_wr_calls)
+ENSURES(vf_wr_calls == 1 && RESULT >= -1 && (RESULT == -1 || (size_t)RESULT < v->count))
+;
+#endif
+
 /* ------------------------------------------------------------------ harnesses */
 #ifndef VF_NATIVE
 
@@ -188,6 +250,14 @@ cstl_xtor_func_t * const vf_anchor_dest = vf_dest;
 
 #ifdef VF_G_swap
 void h_swap(void) { struct cstl_vector * a, * b; cstl_vector_swap(a, b); VF_END(); }
+#endif
+#ifdef VF_G_wrappers
+const void * nondet_cptr(void); void * nondet_ptr(void); cstl_compare_func_t * nondet_cmpf(void); cstl_swap_func_t * nondet_swapf(void);
+#define WR_IN() do { V_WIT_IN(); vf_wr_cmp = nondet_cmpf(); vf_wr_priv = nondet_ptr(); vf_wr_swap = nondet_swapf(); vf_wr_algo = nondet_int(); vf_wr_ex = nondet_cptr(); } while (0)
+void h_w_sort(void) { struct cstl_vector * v; WR_IN(); __cstl_vector_sort(v, vf_wr_cmp, vf_wr_priv, vf_wr_swap, (cstl_sort_algorithm_t)vf_wr_algo); VF_END(); }
+void h_w_reverse(void) { struct cstl_vector * v; WR_IN(); __cstl_vector_reverse(v, vf_wr_swap); VF_END(); }
+void h_w_search(void) { struct cstl_vector * v; WR_IN(); cstl_vector_search(v, vf_wr_ex, vf_wr_cmp, vf_wr_priv); VF_END(); }
+void h_w_find(void) { struct cstl_vector * v; WR_IN(); cstl_vector_find(v, vf_wr_ex, vf_wr_cmp, vf_wr_priv); VF_END(); }
 #endif
 void h_set_capacity(void)
 {
